@@ -192,6 +192,7 @@ fn main() {
         time_budget: Duration::from_secs(budget_s),
         scale_pct,
     };
+    props::common::THOROUGH.store(thorough, std::sync::atomic::Ordering::Relaxed);
     guard::install_panic_hook();
     let per_call_limit = std::env::var("VERIF_CALL_LIMIT_S").ok().and_then(|s| s.parse().ok()).unwrap_or(45u64);
     if !cfg!(miri) {
